@@ -85,7 +85,12 @@ for d in sorted(glob.glob(os.path.join(V, 'seeded', '*'))):
     by = m.get('caught_by_latest', '')
     rv = m.get('check_result_verifier_only', '?')
     tot_v[rv] = tot_v.get(rv, 0) + 1
-    out.append('| %s | %s | %s | %s | %s |' % (m['seed'], where[:110], 'missed (OK)' if res == 'OK' else res, by[:160].replace('|', '/'), ('missed (OK)' if rv == 'OK' else rv) + ((': ' + m.get('caught_by_verifier_only', '')[:90].replace('|', '/')) if rv == 'VIOLATION' else '')))
+    fr = m.get('check_result_first_run')
+    if fr and fr != res:
+        res_txt = '%s (first run: %s — %s)' % (res, 'missed' if fr == 'OK' else fr, m.get('note', 'the machinery was extended after this miss')[:220])
+    else:
+        res_txt = 'missed (OK)' if res == 'OK' else res
+    out.append('| %s | %s | %s | %s | %s |' % (m['seed'], where[:110], res_txt, by[:160].replace('|', '/'), ('missed (OK)' if rv == 'OK' else rv) + ((': ' + m.get('caught_by_verifier_only', '')[:90].replace('|', '/')) if rv == 'VIOLATION' else '')))
 out += ['', 'Totals: %d caught (VIOLATION), %d undecided (exit 2, counted as missed), %d missed (exit 0).' % (tot.get('VIOLATION', 0), tot.get('UNDECIDED', 0), tot.get('OK', 0)),
         'Verifier only: %d VIOLATION (a named obligation fails), %d UNDECIDED, %d OK, %d not measured.' % (tot_v.get('VIOLATION', 0), tot_v.get('UNDECIDED', 0), tot_v.get('OK', 0), tot_v.get('?', 0)), '']
 # harmless refactorings
